@@ -59,6 +59,8 @@ def run(res):
     sched_common.campaign(res, "C08", "uncond_prog", variants(res.seed), n, ["uncond"],
                           workers_note=", W in 1..3 workers; SPSC pairs over a one-word buffer with alternating waiter/signaler roles on 1-3 variables, and 1-3 producers signalling one blocking consumer; <= ~50 rendezvous per run; early signals (signaler spins on u->th == 0) and late signals both forced by the schedules")
     res.notes["rendezvous_histogram"] = rendezvous_histogram()
+    if not res.violations:
+        sched_common.free_stress(res, "C08", "uncond", [(3, 2, 20000, 1), (2, 2, 20000, 0), (4, 2, 20000, 3), (8, 2, 10000, 2), (1, 2, 5000, 0)])
     if res.breaks and not res.violations:
         sched_common.search_more(res, "C08", "uncond_prog", variants(res.seed + 1), 300)
     res.assumptions += [
@@ -72,6 +74,8 @@ def run(res):
 
 
 def replay(path):
+    if os.path.isfile(path) and path.endswith("stress.txt") and open(path).readline().startswith("sync_stress_prog"):
+        return sched_common.replay_stress("C08", path)
     return replay_with_seed("C08", path)
 
 
